@@ -175,8 +175,9 @@ class C07(Prop):
                   "HELP is the first description of the sanitised name; rendering twice in a row gives the same rendering. The model is tied to /repo by "
                   "running the real recorder and the model on the same generated histories each run and comparing every render() output.")
     level_note = ("Trusted: Coq kernel; hand-written model (tied by differential runs, not by translation). Sequential model: the Registry is one storage per "
-                  "key (C06) and an AtomicBucket is its bag of samples (C05); the concurrent clause is checked by a free-running stress only, and inherits "
-                  "C05's open finding (a sample pushed into a just-detached block is lost). Doubles are restricted to quarter-exact values below 2^50 so that "
+                  "key (C06) and an AtomicBucket is its bag of samples (C05); the concurrent clause is checked by two free-running stress engines only (final totals under concurrent recording, which inherits "
+                  "C05's open finding: a sample pushed into a just-detached block is lost; and visibility of completed records to renders concurrent with upkeep/render, where nothing is excused). "
+                  "Render/Upkeep are atomic steps of the model; that rests on the drain running under the distributions write lock (stated at Model.v [step]), tested, not proved. Doubles are restricted to quarter-exact values below 2^50 so that "
                   "f64 addition is integer addition (C07_sum_once states the accounting for any commutative monoid; rounding is not modelled); the "
                   "Display/parse round trip is an oracle tested on every rendered value and on a stream of arbitrary bit patterns set on gauges. HashMap order: "
                   "renderings are compared as multisets of sample records, each carrying its family header (family grouping itself is C08's). Summary "
